@@ -1,5 +1,5 @@
 """C33 — configuration safeguards are always applied."""
-from ..rules import config, dispatch, tagkey, tdvp
+from ..rules import drivers, config, dispatch, tagkey, tdvp
 
 META = {
     "title": "Configuration safeguards are always applied",
@@ -26,3 +26,4 @@ def check(ctx):
     tagkey.check(ctx)
     dispatch.solver(ctx)
     ctx.floor("CONFIG-krylov-floor", 3)
+    drivers.create_impl_table(ctx)
